@@ -118,6 +118,7 @@ type traced struct {
 	obs    Obs
 	inputs *Inputs
 	cases  []RenderCase
+	mut    *Diff // what the fresh render changed in the shared state (nil: nothing)
 }
 
 // RandomHistories is M3: n generated bundles, spread over the configurations.
@@ -146,11 +147,12 @@ func RandomHistories(ctx *core.Ctx, n int) {
 	validateFresh(ctx, all)
 }
 
-// randomHistory generates one bundle, its render cases and a history, runs it
-// and returns the fresh outcomes to be validated by TLC.
-func randomHistory(ctx *core.Ctx, r *rand.Rand, cfg Config, sample bool) ([]traced, int) {
-	g := &core.ProgGen{R: r, MaxDepth: 1 + r.Intn(3)}
-	p := g.Gen()
+// BuildCases turns a generated program into the inputs of an instance: its
+// source files, 3-5 render cases (the generated entry with its data, two more
+// templates with data satisfying their params, up to two cases whose data is
+// spoiled so that the render is likely to fail midway) and the operations
+// over them (renders first, then soyjs.Write per file, then EvalExpr).
+func BuildCases(r *rand.Rand, p *core.Program, cfg Config) (in *Inputs, cases []RenderCase, ops []Op, nRender int) {
 	if len(cfg.Fns) > 0 {
 		// reach the custom function from the entry template
 		t := p.Bundle[p.Entry]
@@ -164,7 +166,7 @@ func randomHistory(ctx *core.Ctx, r *rand.Rand, cfg Config, sample bool) ([]trac
 		names = append(names, name)
 	}
 	sort.Strings(names)
-	cases := []RenderCase{{p.Entry, p.Data}}
+	cases = []RenderCase{{p.Entry, p.Data}}
 	for k := 0; k < 2; k++ {
 		t := names[r.Intn(len(names))]
 		cases = append(cases, RenderCase{t, dataFor(r, p.Bundle[t])})
@@ -175,20 +177,29 @@ func randomHistory(ctx *core.Ctx, r *rand.Rand, cfg Config, sample bool) ([]trac
 			cases = append(cases, RenderCase{c.Entry, bad})
 		}
 	}
-	in := &Inputs{Files: files, Data: map[string]map[string]core.V{}, IJ: core.V{"t": "none"}, ExprSrc: exprPool[r.Intn(len(exprPool))]}
-	var ops []Op
+	in = &Inputs{Files: files, Data: map[string]map[string]core.V{}, IJ: core.V{"t": "none"}, ExprSrc: exprPool[r.Intn(len(exprPool))]}
 	for i, c := range cases {
 		d := "d" + strconv.Itoa(i)
 		in.Data[d] = c.Data
 		ops = append(ops, Op{Op: "render", T: c.Entry, D: d})
 	}
-	nRender := len(ops)
+	nRender = len(ops)
 	for _, f := range files {
 		ops = append(ops, Op{Op: "genjs", F: f.Name})
 	}
 	ops = append(ops, Op{Op: "evalexpr"})
+	return
+}
 
-	fresh, err := freshOutcomes(in, ops)
+// randomHistory generates one bundle, its render cases and a history, runs it
+// and returns the fresh outcomes to be validated by TLC.
+func randomHistory(ctx *core.Ctx, r *rand.Rand, cfg Config, sample bool) ([]traced, int) {
+	g := &core.ProgGen{R: r, MaxDepth: 1 + r.Intn(3)}
+	p := g.Gen()
+	in, cases, ops, nRender := BuildCases(r, p, cfg)
+	files := in.Files
+
+	fresh, muts, err := FreshOutcomesDiff(in, ops, true)
 	if err != nil {
 		ctx.ToolError("generated bundle rejected by the compiler (generator problem): %v\n%s", err, files[0].Text)
 		return nil, 0
@@ -197,7 +208,7 @@ func randomHistory(ctx *core.Ctx, r *rand.Rand, cfg Config, sample bool) ([]trac
 	for i, c := range cases {
 		q := *p
 		q.Entry, q.Data = c.Entry, c.Data
-		out = append(out, traced{cfg, &q, fresh[ops[i].Key()], in, cases})
+		out = append(out, traced{cfg, &q, fresh[ops[i].Key()], in, cases, muts[ops[i].Key()]})
 	}
 
 	// the history: every render case several times, interleaved with failing
@@ -219,7 +230,7 @@ func randomHistory(ctx *core.Ctx, r *rand.Rand, cfg Config, sample bool) ([]trac
 		ctx.ToolError("compile: %v", err)
 		return nil, 0
 	}
-	f := runHistory("random-history", inst, hist, nil, fresh)
+	f := runHistory("history", inst, hist, nil, fresh)
 	ctx.AddEvals(int64(L))
 	ctx.AddTraces(1)
 	var steps []Step
@@ -232,13 +243,15 @@ func randomHistory(ctx *core.Ctx, r *rand.Rand, cfg Config, sample bool) ([]trac
 	}
 	if f != nil {
 		ctx.Violation(f.sig, "configuration "+cfg.Name+": "+f.what,
-			RandomReplay{HistoryReplay{Kind: "history", Family: "random-history", Cfg: cfg, Inputs: in, History: steps,
+			RandomReplay{HistoryReplay{Kind: "history", Family: "history", Cfg: cfg, Inputs: in, History: steps,
 				FailedAt: f.step + 1, What: f.what, Observed: f.obs, Fresh: f.fresh, Diff: f.diff}, cases})
 	}
 	return out, L
 }
 
-func progJSON(p *core.Program, cfg *Config) (map[string]interface{}, error) {
+// ProgJSON is the program in the JSON form the trace specs read, with the
+// configuration attached.
+func ProgJSON(p *core.Program, cfg *Config) (map[string]interface{}, error) {
 	b, err := json.Marshal(p)
 	if err != nil {
 		return nil, err
@@ -264,7 +277,7 @@ func validateFresh(ctx *core.Ctx, all []traced) {
 	var buf bytes.Buffer
 	for i := range all {
 		t := &all[i]
-		m, err := progJSON(t.prog, &t.cfg)
+		m, err := ProgJSON(t.prog, &t.cfg)
 		if err != nil {
 			ctx.ToolError("%v", err)
 			return
@@ -306,10 +319,18 @@ func validateFresh(ctx *core.Ctx, all []traced) {
 	}
 	report := func(i int, status, out, via string) {
 		t := all[i]
-		ctx.Violation(core.Sig{Family: "random-history", Feature: "fresh-outcome-differs-from-spec:render"},
-			fmt.Sprintf("configuration %s, %s, fresh bundle: real err=%v out=%q (%s); spec (%s): status=%s out=%q", t.cfg.Name, t.prog.Entry, t.obs.Err, t.obs.Out, t.obs.ErrText, via, status, out),
+		sig := core.Sig{Family: "history", Feature: "fresh-outcome-differs-from-spec:render"}
+		why := ""
+		if t.mut != nil {
+			// the render changed the shared tree while running: that, not the
+			// language semantics, is what this case shows
+			sig.Feature = "shared-state-mutated:" + t.mut.Own
+			why = fmt.Sprintf("; the render changed %s: %s -> %s", t.mut.Path, t.mut.Before, t.mut.After)
+		}
+		ctx.Violation(sig,
+			fmt.Sprintf("configuration %s, %s, fresh bundle: real err=%v out=%q (%s); spec (%s): status=%s out=%q%s", t.cfg.Name, t.prog.Entry, t.obs.Err, t.obs.Out, t.obs.ErrText, via, status, out, why),
 			map[string]interface{}{"kind": "fresh-render", "cfg": t.cfg, "files": t.inputs.Files, "entry": t.prog.Entry, "data": t.prog.Data,
-				"observed": t.obs, "specStatus": status, "specOut": out})
+				"observed": t.obs, "specStatus": status, "specOut": out, "stateDiff": t.mut})
 	}
 	for i := range all {
 		if e, isBad := bad[i]; isBad {
@@ -322,7 +343,7 @@ func validateFresh(ctx *core.Ctx, all []traced) {
 	for i := range all {
 		if all[i].cfg.Name == "none" {
 			t := all[i]
-			plain = append(plain, &core.ProgCase{Family: "random-history", Prog: t.prog, Files: t.inputs.Files,
+			plain = append(plain, &core.ProgCase{Family: "history", Prog: t.prog, Files: t.inputs.Files,
 				Obs: core.Obs{Err: t.obs.Err, Out: t.obs.Out, ErrText: t.obs.ErrText}})
 			idx = append(idx, i)
 		}
